@@ -8,6 +8,7 @@
 -/
 import VProofs.Ident
 import VProofs.IdentIP
+import VProofs.IdentIP6Top
 import VProofs.B64
 import VProofs.Limits
 import VModel.Vertable
@@ -133,16 +134,16 @@ example : parseServerName "[2001:db8::1]:00443".toUTF8.toList = some ("[2001:db8
 
 /-! ## 2. Identifiers are accepted exactly when they match their grammar
 
-  The three theorems below are `_partial` in ONE respect: the grammar's recogniser of IP literals inside
-  brackets is instantiated with the model of Go's `net.ParseIP` (`parseIP`), i.e. they hold for whatever
-  `net.ParseIP` accepts.  The full statements (with the independent RFC 4291 / dotted-quad recogniser
-  `Spec.isIPLiteral`) follow from them under the hypothesis `ParseIPAgrees`, which says that the std-lib
-  function accepts exactly the RFC 4291 text forms; that hypothesis is about the trusted base (Go's
-  netip.ParseAddr), is NOT proved here, and is checked by the correspondence stream of `ident.isip`
-  (bounded-exhaustive over the alphabet `0 1 9 a f : .`, every single-character mutation of 37 valid
-  literals, random group sequences).  Everything the library itself does (splitting at the last / first
-  colon, the port, brackets, DNS characters, sigils, non-empty parts, length limits, the 43-character
-  domainless form, the localpart class) is proved against the grammar for all byte strings. -/
+  Structure: the three `…_partial` theorems are generic in the recogniser of IP literals (they hold for
+  whatever `net.ParseIP` accepts, instantiated with its model `parseIP`): everything the library itself does
+  (splitting at the last / first colon, the port, brackets, DNS characters, sigils, non-empty parts, length
+  limits, the 43-character domainless form, the localpart class) against the grammar, for all byte strings.
+  `parseIP_accept_iff_literal` then shows that the model of `net.ParseIP` (netip.ParseAddr: dispatch on the
+  first of '.', ':', '%'; parseIPv4Fields; parseIPv6 with hex groups of at most 4 digits, one `::`, an embedded
+  dotted-quad tail, at most 8 groups; zones refused) accepts exactly the specification's dotted-quad / RFC 4291
+  texts, for all byte strings; the unconditional `…_accept_iff_grammar` theorems follow.  What remains
+  trusted is that `parseIP` models Go's function: tied by the streams `ident.parseip` (16-byte result) and
+  `ident.isip` (bounded-exhaustive small alphabets, mutations, random long literals). -/
 
 /-- ParseAndValidateServerName accepts exactly the server-name grammar, for whatever recogniser of IP
     literals `net.ParseIP` is (here: its model `parseIP`). -/
@@ -298,30 +299,53 @@ theorem roomID_accept_iff_grammar_partial (s : BS) :
         repeat' split
         all_goals first | rfl | (exfalso; simp_all)
 
-/-- the IPv4 half of `ParseIPAgrees` IS proved: the dotted-quad parser (also used for the embedded tail of
-    an IPv6 literal) accepts exactly four dec-octets ≤ 255 without leading zeros, separated by single dots -/
+/-- the dotted-quad parser (also used for the embedded tail of an IPv6 literal) accepts exactly four
+    dec-octets ≤ 255 without leading zeros, separated by single dots -/
 theorem parseIPv4_accept_iff_dottedQuad (s : BS) : (parseIPv4 s).isSome = Spec.isIPv4 s :=
   parseIPv4_isSome_eq s
 
 example : parseIPv4 "255.0.10.1".toUTF8.toList = some [255, 0, 10, 1] ∧ parseIPv4 "1.2.3.04".toUTF8.toList = none
     ∧ parseIPv4 "1.2.3".toUTF8.toList = none ∧ parseIPv4 "256.1.1.1".toUTF8.toList = none := by decide +kernel
 
+/-- the IPv6 literal parser (netip.parseIPv6 as modelled: groups of 1–4 hex digits, at most one "::" standing
+    for at least one group, an optional embedded dotted quad in the place of the last two groups, 8 groups
+    in all) accepts exactly the specification's RFC 4291 §2.2 text forms — for ALL byte strings -/
+theorem parseIPv6_accept_iff_rfc4291 (s : BS) : (parseIPv6 s).isSome = Spec.isIPv6 s :=
+  parseIPv6_isSome_eq s
+
+example : (parseIPv6 "1:2:3:4:5:6:7::".toUTF8.toList).isSome = true ∧ (parseIPv6 "1:2:3:4:5:6:7:8::".toUTF8.toList).isSome = false
+    ∧ parseIPv6 "::ffff:1.2.3.4".toUTF8.toList = some [0,0,0,0,0,0,0,0,0,0,0xff,0xff,1,2,3,4]
+    ∧ (parseIPv6 "1::2::3".toUTF8.toList).isSome = false ∧ (parseIPv6 "::1.2.3.4:5".toUTF8.toList).isSome = false
+    ∧ (parseIPv6 "12345::".toUTF8.toList).isSome = false ∧ (parseIPv6 "1:2:3:4:5:6:1.2.3.4".toUTF8.toList).isSome = true := by
+  decide +kernel
+
 /-- net.ParseIP (as modelled) accepts exactly the dotted-quad and RFC 4291 text forms -/
 def ParseIPAgrees : Prop := ∀ a : BS, (parseIP a).isSome = Spec.isIPLiteral a
 
-theorem serverName_accept_iff_grammar (hip : ParseIPAgrees) (s : BS) :
+/-- `ParseIPAgrees` holds: net.ParseIP's model = the specification's IP-literal recogniser (zones and
+    every other byte outside the grammar refused on both sides) -/
+theorem parseIP_accept_iff_literal : ParseIPAgrees := parseIP_isSome_eq
+
+theorem serverName_accept_iff_grammar_of_ParseIPAgrees (hip : ParseIPAgrees) (s : BS) :
     (parseServerName s).isSome = Spec.isServerName s := by
   have : (fun a => (parseIP a).isSome) = Spec.isIPLiteral := funext hip
   rw [serverName_accept_iff_grammar_partial, this]; rfl
 
-theorem userID_accept_iff_grammar (hip : ParseIPAgrees) (s : BS) (hist : Bool) :
+/-- ParseAndValidateServerName accepts exactly the server-name grammar (host = DNS name / IPv4 / bracketed
+    IP literal, optional port ≤ 65535) -/
+theorem serverName_accept_iff_grammar (s : BS) : (parseServerName s).isSome = Spec.isServerName s :=
+  serverName_accept_iff_grammar_of_ParseIPAgrees parseIP_accept_iff_literal s
+
+/-- NewUserID (both values of allowHistoricalIDs) accepts exactly the user-ID grammar -/
+theorem userID_accept_iff_grammar (s : BS) (hist : Bool) :
     (parseUserID s hist).isSome = Spec.isUserID hist s := by
-  have : (fun d => (parseServerName d).isSome) = Spec.isServerName := funext (serverName_accept_iff_grammar hip)
+  have : (fun d => (parseServerName d).isSome) = Spec.isServerName := funext serverName_accept_iff_grammar
   rw [userID_accept_iff_grammar_partial, this]; rfl
 
-theorem roomID_accept_iff_grammar (hip : ParseIPAgrees) (s : BS) :
+/-- NewRoomID accepts exactly the room-ID grammar (with a server name, or the 43-character domainless form) -/
+theorem roomID_accept_iff_grammar (s : BS) :
     (parseRoomID s).isSome = Spec.isRoomID s := by
-  have : (fun d => (parseServerName d).isSome) = Spec.isServerName := funext (serverName_accept_iff_grammar hip)
+  have : (fun d => (parseServerName d).isSome) = Spec.isServerName := funext serverName_accept_iff_grammar
   rw [roomID_accept_iff_grammar_partial, this]; rfl
 
 /-- the unbracketed IPv4-mapped IPv6 literal that /repo accepted before commit 6383d29 is refused, by the
